@@ -77,7 +77,7 @@ SLICES = {
         "stages": S(["a", "c"], stages=(0, 1), reps=("none", "n2", "vs"), aggs=(False,), graph=8),
         "stages2": S(["a", "c"], stages=(0, 1), graph=8),
         "shape": S(["p", "q", "r", "s"], reps=("none", "n2"), spell=("rel",), orders=("fwd", "rev"), comps=4, fixed=True, graph=8),
-        "shape3": S(["p", "q", "r"], reps=("none", "n1", "n2", "n3"), spell=("rel", "abs"), orders=("fwd", "rev"), fixed=True,
+        "shape3": S(["p", "q", "r"], reps=("none", "n1", "n2", "n3"), spell=("rel", "abs"), orders=("rev",), fixed=True,
                     styles=("same", "flip"), graph=16),
         "vars": S(["p", "q", "r"], stages=(0, 1), reps=ALL_REPS, aggs=(False,), spell=("abs",), comps=3, refs=1, fixed=True,
                   graph=4),
@@ -89,18 +89,18 @@ SLICES = {
                     fixed=True, same=3, graph=2),
         "multi2t": S(["p", "q"], stages=(0, 1), paths=("", "out.txt"), methods=("ref", "copy"), styles=("same", "tail"), comps=2,
                      fixed=True, same=2),
-        "multi3p": S(["p", "q", "r"], spell=("rel",), paths=("", "out.txt", "d/f.x"), refs=3, fixed=True, same=3, graph=16),
+        "multi3p": S(["p", "q", "r"], spell=("rel",), paths=("", "out.txt", "d/f.x"), refs=3, fixed=True, same=2, graph=16),
         "multi3m": S(["p", "q", "r"], spell=("rel",), methods=("ref", "copy", "output"), refs=3, fixed=True, same=2, graph=16),
         "multi3s": S(["p", "q", "r"], stages=(0, 1), refs=3, fixed=True, same=2, graph=8),
         "refs3": S(["a", "ba", "c"], paths=("", "out.txt"), styles=("same", "tail"), spell=("rel",), graph=16),
         "platform": S(["p", "q"], stages=(0, 1), reps=("none", "vg", "vs", "vc"), spell=("abs",), comps=2, refs=1, fixed=True,
-                      aggvar=(False, True), sv0=(0, 2), sv1=(0, 2), plat=(0, 1), pg=(0, 1, 3), ps0=(0, 1), ps1=(0, 3), graph=4),
+                      aggvar=(False, True), sv0=(0, 2), sv1=(0, 2), plat=(0, 1), pg=(0, 1, 3), ps0=(0, 1), ps1=(0, 3), graph=8),
         "platform3": S(["p", "q", "r"], stages=(0, 1), reps=("none", "vs"), spell=("abs",), refs=1, fixed=True,
                        sv0=(0, 2), sv1=(0,), plat=(0, 1), pg=(0, 3), ps0=(0, 1), ps1=(0,), graph=8),
         "scopes": S(["p", "q"], stages=(0, 1), reps=("none", "n2", "vg", "vs", "vc"), spell=("abs",), comps=2, refs=1, fixed=True,
                     priv=(0, 1, 3), aggvar=(False, True), sv0=(0, 1), sv1=(0, 2, 3), orders=("fwd", "rev"), graph=2),
         "scopes3": S(["p", "q", "r"], stages=(0, 1), reps=("none", "vg", "vs"), aggs=(False,), spell=("abs",), refs=1, fixed=True,
-                     priv=(0, 1), sv0=(0, 1), sv1=(0, 2), orders=("fwd", "rev"), graph=16),
+                     priv=(0, 1), sv0=(0, 1), sv1=(0, 2), orders=("rev",), graph=16),
     },
 }
 
